@@ -23,6 +23,7 @@ ASSUMPTIONS = [
 
 SIGMA_Q = ["a", "b", "1", "0", "+", "-", "*", "/", ":", "**", "%in%", "~", "|", "(", ")", "."]
 SIGMA_T = SIGMA_Q + ["c", "2", "2.5", "^"]
+SIGMA_K = ["a", "`x y`", "log(a)", "{a+b}", "`p:q`", "1", "+", "-", ":", "*", "(", ")", "~", "."]
 AVAILS = [["a", "b", "c"], [], ["a"], ["c", "a", "b"]]
 
 PINNED = {
@@ -404,6 +405,8 @@ def subchecks(tier, seed):
         subs.append(Sub("tokens-seed-slice", drv_tokens, {"sigma": SIGMA_Q, "L": 5, "Lmin": 5, "first": first}, shard_depth=3,
                         bounds={"alphabet": SIGMA_Q, "tokens": 5, "first_token": first,
                                 "note": "VERIF_SEED-selected exhaustive slice of the thorough scope"}))
+        subs.append(Sub("tokens-operand-kinds", drv_tokens, {"sigma": SIGMA_K, "L": 4}, shard_depth=3,
+                        bounds={"alphabet": SIGMA_K, "max_tokens": 4}))
         subs.append(Sub("sentences", drv_sentences, {"k": 2, "kmin": 0, "leaves": ["a", "b", "c", "1", "0"], "powers": ["2"]},
                         shard_depth=3, bounds={"max_binary_operators": 2, "leaves": ["a", "b", "c", "1", "0"]}))
         subs.append(Sub("sentences-3", drv_sentences, {"k": 3, "kmin": 3, "leaves": ["a", "b"], "powers": ["2"]},
@@ -417,6 +420,8 @@ def subchecks(tier, seed):
     else:
         subs.append(Sub("tokens", drv_tokens, {"sigma": SIGMA_T, "L": 4}, shard_depth=3,
                         bounds={"alphabet": SIGMA_T, "max_tokens": 4}))
+        subs.append(Sub("tokens-operand-kinds", drv_tokens, {"sigma": SIGMA_K + ["|", "/", "**", "2"], "L": 5}, shard_depth=3,
+                        bounds={"alphabet": SIGMA_K + ["|", "/", "**", "2"], "max_tokens": 5}))
         subs.append(Sub("tokens-5", drv_tokens, {"sigma": SIGMA_Q, "L": 5, "Lmin": 5}, shard_depth=3,
                         bounds={"alphabet": SIGMA_Q, "tokens": 5}))
         subs.append(Sub("sentences", drv_sentences, {"k": 3, "kmin": 0, "leaves": ["a", "b", "c", "1", "0"], "powers": ["2", "3"]},
